@@ -16,12 +16,19 @@ Suites (same case layout as the Go harnesses, see pyharness/common.py):
   filter    sequences of TrafficFilter.is_allowed queries on one filter object
   hook      application calls through RequestsHook._hook_module() with a scripted
             transport
+  overlap   several `with fail_safe:` blocks open at once on ONE FailSafe object:
+            __enter__ / state_ok / validate_headers / __exit__ of different calls
+            executed on the same instance in every interleaving (2 calls) or a
+            sampled one (3 calls); observed after every method call: its result,
+            what state_ok answers, and the tolerance (errors until the circuit
+            opens), both probed on a copy
 
 The monitor restates the property over what the implementation did; it shares
 no code with the model and uses its own failure counter and integer CIDR
 arithmetic.
 """
 import ast
+import copy
 import importlib
 import ipaddress  # noqa: F401  (imported by traffic_filter; make sure it is the stdlib one)
 import itertools
@@ -623,6 +630,462 @@ def exec_events_on_object(ctor, t0, events):
 
 
 # =============================================================================
+# suite "overlap": several `with fail_safe:` blocks open at once on ONE object
+# =============================================================================
+#
+# The interceptor has a single FailSafe shared by every hook, thread and task, so
+# the method calls of different in-flight requests reach it interleaved.  A
+# history is a set of guarded calls (id -> kind) and a SCHEDULE: a list of call
+# ids (each occurrence lets that call execute its next method call on the shared
+# object) and clock advances.  The real __enter__ / state_ok / validate_headers /
+# __exit__ of the same instance are called in that global order -- exactly what
+# threads / tasks do to it; no real threads are needed because every method body
+# is one step.
+#
+#   kind       what the call does after __enter__ and `state_ok`
+#   clean      routed; clean response -> validate_headers(ok); normal exit
+#   hdr        routed; x-lunar-error -> validate_headers raises; exit with ProxyErrorException
+#   conn       routed; the transport raises ConnectionError; exit with it
+#   other      routed; the application's own exception; exit with it (must propagate)
+#   filtered   destination excluded by the filter: never routed; normal exit
+#   retryfail  routed; clean first response, then the retry fails: validate_headers(ok); exit with ConnectionError
+#   (whatever the kind: not routed when its own state_ok answered False -> normal exit)
+
+OVERLAP_KINDS = ["clean", "hdr", "conn", "other", "filtered", "retryfail"]
+OVERLAP_STEPS = {"clean": 4, "hdr": 4, "conn": 3, "other": 3, "filtered": 3, "retryfail": 4}
+FAR_MS = 10 ** 9
+
+
+_PROBE_CACHE = {}
+
+
+def probe_object(f, limit):
+    """What an observer sees of the object now, through its public interface only and without
+    touching it (two shallow copies: all its fields are immutable values):
+      okp  what state_ok answers at this instant;
+      tol  the tolerance: how many further gateway errors it takes, once any cool-down is over,
+           until state_ok answers False (the observable form of the failure count);
+           -1 still open in the far future, -2 not open after `limit` errors, -3 the block raised.
+    The answer is a function of the object's fields and the clock (that is what probing a copy
+    assumes anyway), so it is memoised on them; the fields are a cache key only, never compared."""
+    try:
+        key = (tuple(sorted(f.__dict__.items())), NOW[0], limit)
+        hit = _PROBE_CACHE.get(key)
+    except TypeError:
+        key = hit = None
+    if hit is not None:
+        return hit
+    okp = copy.copy(f).state_ok
+    if not isinstance(okp, bool):
+        okp = "nonbool:" + repr(okp)
+    p = copy.copy(f)
+    saved = NOW[0]
+    NOW[0] = saved + FAR_MS
+    tol = -1
+    try:
+        if p.state_ok is True:
+            tol = -2
+            for j in range(1, limit + 1):
+                try:
+                    with p:
+                        raise M.fs.ProxyErrorException("probe")
+                except BaseException:  # noqa: B902
+                    tol = -3
+                    break
+                if p.state_ok is not True:
+                    tol = j
+                    break
+    finally:
+        NOW[0] = saved
+    if key is not None:
+        if len(_PROBE_CACHE) > 200000:
+            _PROBE_CACHE.clear()
+        _PROBE_CACHE[key] = (okp, tol)
+    return okp, tol
+
+
+def exec_overlap(case):
+    """case: {ctor, t0, calls: {id: kind}, schedule: [id | ["adv", ms]]} -> fills case["events"]:
+    the method calls in the global order they were executed, each with what it returned and
+    with the probe (okp, tol) taken right after it."""
+    f = build_failsafe(case["ctor"])
+    f.handle_on((_ConnectionError,))
+    n, _ = configured(case["ctor"])
+    limit = n + 3
+    NOW[0] = case["t0"]
+    st = {}
+    for k, kind in case["calls"].items():
+        st[int(k)] = {"kind": kind, "plan": ["enter", "read"], "exc": None, "src": None, "done": False}
+    evs = []
+
+    def record(e):
+        e["okp"], e["tol"] = probe_object(f, limit)
+        e["t"] = NOW[0]
+        evs.append(e)
+
+    def step(i):
+        c_ = st[i]
+        if c_["done"]:
+            return
+        what = c_["plan"].pop(0)
+        if what == "enter":
+            r = f.__enter__()
+            record({"e": "enter", "id": i, "self": r is f})
+        elif what == "read":
+            ok = f.state_ok
+            routed = ok is True and c_["kind"] != "filtered"
+            c_["plan"] = {"clean": ["vok", "exit"], "hdr": ["verr", "exit"], "conn": ["raise-conn", "exit"],
+                          "other": ["raise-other", "exit"], "retryfail": ["vok", "raise-conn", "exit"]
+                          }[c_["kind"]] if routed else ["exit"]
+            record({"e": "read", "id": i, "ans": ok if isinstance(ok, bool) else "nonbool:" + repr(ok), "routed": routed})
+        elif what in ("vok", "verr"):
+            raised = False
+            try:
+                f.validate_headers({"x-lunar-error": "3"} if what == "verr" else [{}, {"content-type": "x"}][i % 2])
+            except M.fs.ProxyErrorException as x:
+                raised = True
+                c_["exc"], c_["src"] = x, "hdr"
+            except BaseException as x:  # noqa: B902
+                raised = "foreign:" + type(x).__name__
+                c_["exc"], c_["src"] = x, "foreign"
+            if raised:
+                c_["plan"] = ["exit"]
+            record({"e": "validate", "id": i, "err": what == "verr", "raised": raised})
+        elif what == "raise-conn":
+            c_["exc"], c_["src"] = _ConnectionError("refused"), "conn"
+            step(i)                     # raising is not a call on the object: the exit follows at once
+        elif what == "raise-other":
+            c_["exc"], c_["src"] = [AppError, KeyError][i % 2]("app"), "other"
+            step(i)
+        else:
+            x = c_["exc"]
+            try:
+                if x is None:
+                    f.__exit__(None, None, None)
+                    propagated = False
+                else:
+                    propagated = not f.__exit__(type(x), x, x.__traceback__)
+            except BaseException as y:  # noqa: B902
+                propagated = "foreign:" + type(y).__name__
+            c_["done"] = True
+            kind = "none" if x is None else ("other" if c_["src"] in ("other", "foreign") else "handled")
+            record({"e": "exit", "id": i, "kind": kind, "src": c_["src"], "propagated": propagated})
+
+    for slot in case["schedule"]:
+        if isinstance(slot, list):
+            NOW[0] += slot[1]
+            record({"e": "adv", "d": slot[1]})
+        else:
+            step(int(slot))
+    for i in sorted(st):                # calls still open when the schedule ends leave in id order
+        while not st[i]["done"]:
+            step(i)
+    case["events"] = evs
+    return case
+
+
+def coq_overlap_case(case):
+    def ev(e):
+        k = e["e"]
+        if k == "enter":
+            return "(CEnter %d)" % e["id"]
+        if k == "read":
+            return "(CRead %d)" % e["id"]
+        if k == "validate":
+            return "(CValidate %d %s)" % (e["id"], c.B(e["err"]))
+        if k == "exit":
+            return "(CExit %d %s)" % (e["id"], {"none": "KNone", "handled": "KHandled", "other": "KOther"}[e["kind"]])
+        return "(CAdv %s)" % c.Z(e["d"])
+
+    def ob(e):
+        k = e["e"]
+        if k == "read":
+            r = "(ORead %s)" % (c.B(e["ans"]) if isinstance(e["ans"], bool) else "false")
+        elif k == "validate":
+            r = "(OValidate %s)" % c.B(bool(e["raised"]))
+        elif k == "exit":
+            r = "(OExit %s)" % c.B(bool(e["propagated"]))
+        else:
+            r = "OAdv"
+        return c.Tuple(r, c.B(e["okp"] is True), c.Z(e["tol"]))
+    return c.Tuple(coq_ctor(case["ctor"]), c.Z(case["t0"]), c.MapList(case["events"], ev), c.MapList(case["events"], ob))
+
+
+# ---- monitor: the property over the executed method calls, as a set of admissible readings
+#
+# The property speaks of calls ("any successful call through the gateway clears the failure
+# count", "consecutive gateway-side failures"); with calls that overlap, the instant at which a
+# call's success / failure takes effect is only fixed up to the call's own extent.  The monitor
+# therefore accepts EVERY reading in which
+#   * a success takes effect at some instant between the clean validate_headers and the __exit__
+#     of that call,
+#   * a gateway error takes effect at the __exit__ that receives it (for an x-lunar-error
+#     response: at some instant between that validate_headers and the __exit__),
+#   * the circuit opens when the n-th consecutive failure takes effect, for c seconds from that
+#     instant; a further failure while it is open may or may not restart the cool-down; after a
+#     cool-down the circuit may re-open on fewer than n new failures (nothing says the count is
+#     cleared by the cool-down), and must after n new ones;
+# and reports the first observation (answer of state_ok to a call, probe after an event) that NO
+# such reading explains.  State of a reading: (k_total, k_since, open_until | -1, calls whose
+# success has not taken effect yet, calls whose header error has not taken effect yet).
+
+def _mon_success(stt):
+    return (0, 0, stt[2], stt[3], stt[4])
+
+
+def _mon_error(stt, now, n, c_ms):
+    kt, ks, u, P, E = stt
+    kt, ks = kt + 1, ks + 1
+    if ks >= n:
+        if u < 0:
+            return [(kt, ks, now + c_ms, P, E)]
+        return [(kt, ks, u, P, E), (kt, ks, now + c_ms, P, E)]
+    if kt >= n:
+        return [(kt, ks, u, P, E), (kt, ks, now + c_ms, P, E)]
+    return [(kt, ks, u, P, E)]
+
+
+def _mon_norm(stt, now):
+    if stt[2] >= 0 and now >= stt[2]:
+        return (stt[0], 0, -1, stt[3], stt[4])
+    return stt
+
+
+def _mon_closure(states, now, n, c_ms):
+    seen = set()
+    work = [_mon_norm(x, now) for x in states]
+    while work:
+        x = work.pop()
+        if x in seen:
+            continue
+        seen.add(x)
+        kt, ks, u, P, E = x
+        for a in P:
+            work.append(_mon_norm(_mon_success((kt, ks, u, P - {a}, E)), now))
+        for b in E:
+            for y in _mon_error((kt, ks, u, P, E - {b}), now, n, c_ms):
+                work.append(_mon_norm(y, now))
+    return seen
+
+
+def _mon_tols(stt, n):
+    kt, ks, u, _, _ = stt
+    return {max(1, n - kt), n if u >= 0 else max(1, n - ks)}
+
+
+def monitor_overlap(n, cd_s, evs):
+    c_ms = cd_s * 1000
+    states = {(0, 0, -1, frozenset(), frozenset())}
+    open_ids = set()
+    overlapped = False
+    last_count_event = None           # "success" | "error": the last clean response / error exit in the global order
+    hist = []
+
+    def where():
+        return ":overlap" if overlapped else ":sequential"
+
+    def ks_of(sts):
+        return sorted({x[0] for x in sts})
+
+    for e in evs:
+        now = e["t"]
+        k = e["e"]
+        i = e.get("id")
+        hist.append(k + (":%s" % i if i is not None else ""))
+        prev = states
+        # -- unconditional demands on the method call itself
+        if k == "enter":
+            if open_ids:
+                overlapped = True
+            open_ids.add(i)
+            if e["self"] is not True:
+                return Hit("enter-result", "__enter__ returns the object", "it did not")
+        elif k == "validate" and e["raised"] is not e["err"]:
+            return Hit("validate-headers", "ProxyErrorException iff x-lunar-error is present", "raised=%r" % (e["raised"],))
+        elif k == "exit":
+            open_ids.discard(i)
+            want = e["kind"] == "other"
+            if e["propagated"] is not want:
+                return Hit("other-exception-swallowed" if want else "raised-into-application:%s" % e["src"],
+                           "gateway errors never reach the application, other exceptions always do",
+                           "exit of call %s (%s): propagated=%r" % (i, e["kind"], e["propagated"]))
+        elif k == "read" and not isinstance(e["ans"], bool):
+            return Hit("state-ok-not-bool", "state_ok is a boolean", str(e["ans"]))
+        # -- effect on the admissible readings
+        nxt = set()
+        forced_success = False        # a reading in which this call's success takes effect at this very exit
+        for x in states:
+            x = _mon_norm(x, now)
+            kt, ks, u, P, E = x
+            if k == "validate" and not e["err"]:
+                nxt.add((kt, ks, u, P | {i}, E))
+            elif k == "validate":
+                nxt.add((kt, ks, u, P, E | {i}))
+            elif k == "exit":
+                if i in P:
+                    forced_success = True
+                    x = _mon_success((kt, ks, u, P - {i}, E))
+                    kt, ks, u, P, E = x
+                if e["kind"] == "handled" and (e["src"] != "hdr" or i in E):
+                    nxt.update(_mon_error((kt, ks, u, P, E - {i}), now, n, c_ms))
+                else:
+                    nxt.add((kt, ks, u, P, E - {i}))
+            else:
+                nxt.add(x)
+        if k == "validate" and not e["err"]:
+            last_count_event = "success"
+        elif k == "exit" and e["kind"] == "handled":
+            last_count_event = "error"
+        if forced_success:
+            last_count_event = "success"
+        states = _mon_closure(nxt, now, n, c_ms)
+        # -- observations: the answer given to the call, then the probe
+        for what, val in ((("read", e["ans"]),) if k == "read" else ()) + (("okp", e["okp"]),):
+            keep = {x for x in states if (x[2] < 0) == (val is True)}
+            if not keep:
+                all_closed = all(x[2] < 0 for x in states)
+                if all_closed:
+                    expired = any(x[2] >= 0 for x in prev)
+                    sig = "still-open-after-cooldown" if expired else "opened-early"
+                    dem = ("every admissible reading has the circuit closed at t=%d: consecutive gateway failures in "
+                           "%s, threshold %d" % (now, ks_of(states), n))
+                else:
+                    sig = "not-opened" if (k == "exit" and e["kind"] == "handled") else "closed-early"
+                    dem = ("every admissible reading has the circuit open at t=%d (until %s): consecutive gateway "
+                           "failures in %s, threshold %d, cool-down %d s"
+                           % (now, sorted({x[2] for x in states}), ks_of(states), n, cd_s))
+                return Hit(sig + where(), dem, "%s -> state_ok = %r after %s" % (
+                    "the call was answered" if what == "read" else "probe", val, " ".join(hist[-12:])))
+            states = keep
+        keep = {x for x in states if e["tol"] in _mon_tols(x, n)}
+        if not keep:
+            exp = sorted(set().union(*[_mon_tols(x, n) for x in states]))
+            if e["tol"] >= 1 and e["tol"] < min(exp):
+                sig = "success-not-counted" if last_count_event == "success" else "error-overcounted"
+            elif e["tol"] >= 1:
+                sig = "error-not-counted" if last_count_event == "error" else "count-cleared-without-success"
+            else:
+                sig = "never-opens" if e["tol"] == -2 else "tolerance-probe:%d" % e["tol"]
+            return Hit(sig + where(),
+                       "further gateway errors until the circuit opens (threshold %d minus the failures since the last "
+                       "successful gateway call) in %s" % (n, exp),
+                       "%d after %s" % (e["tol"], " ".join(hist[-12:])))
+        states = keep
+    return None
+
+
+def do_overlap_case(o, case, record=True):
+    exec_overlap(case)
+    evs = case["events"]
+    n, cd = configured(case["ctor"])
+    h = monitor_overlap(n, cd, evs)
+    open_now, overl = set(), False
+    for e in evs:
+        if e["e"] == "enter":
+            overl = overl or bool(open_now)
+            open_now.add(e["id"])
+        elif e["e"] == "exit":
+            open_now.discard(e["id"])
+    nontrivial = overl and any(e["okp"] is False for e in evs) and any(e["e"] == "validate" and not e["err"] for e in evs)
+    idx = o.case("overlap", coq_overlap_case(case), case, nontrivial) if (record or write_for(h)) else -1
+    o.monitor_checked()
+    if h:
+        record_hit(o, "overlap", idx, h, case)
+    return overl
+
+
+def interleavings(parts):
+    """every merge of the sequences parts = [(id, steps)...] that keeps each call's own order"""
+    parts = [(i, k) for i, k in parts if k > 0]
+    if not parts:
+        yield []
+        return
+    for j, (i, k) in enumerate(parts):
+        rest = parts[:j] + [(i, k - 1)] + parts[j + 1:]
+        for tail in interleavings(rest):
+            yield [i] + tail
+
+
+def overlap_history(n, cd, pre, kinds, inter, tail, adv_before=None, adv_at=None):
+    """pre sequential gateway errors (ids 1..pre), optional clock advance, the body calls
+    (ids 11, 12, ...) in the interleaving `inter` with an optional advance inserted at position
+    adv_at = (pos, ms), then the tail (sequential calls ids 31.. and advances)."""
+    calls, sched = {}, []
+    for j in range(1, pre + 1):
+        calls[j] = ["conn", "hdr"][j % 2]
+        sched += [j] * OVERLAP_STEPS[calls[j]]
+    if adv_before is not None:
+        sched.append(["adv", adv_before])
+    for j, kd in enumerate(kinds):
+        calls[11 + j] = kd
+    body = list(inter)
+    if adv_at is not None:
+        body.insert(adv_at[0], ["adv", adv_at[1]])
+    sched += body
+    for j, t in enumerate(tail):
+        if isinstance(t, list):
+            sched.append(t)
+        else:
+            calls[31 + j] = t
+            sched += [31 + j] * OVERLAP_STEPS[t]
+    return {"ctor": direct(n, cd), "t0": T0 + 250, "calls": {str(k): v for k, v in calls.items()}, "schedule": sched}
+
+
+def gen_overlap(o):
+    r = o.rng.fork(4)
+    pairs = [(a, b) for ia, a in enumerate(OVERLAP_KINDS) for b in OVERLAP_KINDS[ia:]]
+    w = o.scale(4, 2, 1)               # 1 history in w is also written as a correspondence case
+    # (A) ALL interleavings of two calls x unordered pairs of kinds, starting from a count of 0, 1,
+    #     threshold-1 (pre sequential errors), followed by one more gateway error (does the circuit
+    #     open exactly when it should?) and, around the threshold, by probes at the cool-down edge
+    for (n, cd) in [(3, 2), (2, 1)]:
+        for pre in sorted({0, 1, n - 1}):
+            if (n, pre) == (3, 1) and not o.thorough():
+                continue
+            tails = [["conn"]]
+            if pre == n - 1:
+                tails.append([["adv", cd * 1000 - 1], "clean", ["adv", 1], "clean", "conn"])
+            for (ka, kb) in pairs:
+                for inter in interleavings([(11, OVERLAP_STEPS[ka]), (12, OVERLAP_STEPS[kb])]):
+                    for tail in tails:
+                        do_overlap_case(o, overlap_history(n, cd, pre, [ka, kb], inter, tail), record=r.chance(1, w))
+                        o.count("overlap/2 calls, count %s at start" % ("0" if pre == 0 else "max-1" if pre == n - 1 else "1"))
+    # (B) the circuit is open when the two calls start (count = max): 1 ms before the end of the
+    #     cool-down with 1 ms passing at a sampled position inside, and exactly at its end
+    n, cd = 2, 1
+    for (ka, kb) in pairs:
+        for inter in interleavings([(11, OVERLAP_STEPS[ka]), (12, OVERLAP_STEPS[kb])]):
+            do_overlap_case(o, overlap_history(n, cd, n, [ka, kb], inter, ["conn"], adv_before=cd * 1000),
+                            record=r.chance(1, w))
+            o.count("overlap/2 calls, cool-down just over at start")
+            for _ in range(o.scale(2, 4, 2)):
+                pos = r.intn(len(inter) + 1)
+                do_overlap_case(o, overlap_history(n, cd, n, [ka, kb], inter, ["clean", "conn"],
+                                                   adv_before=cd * 1000 - 1, adv_at=(pos, 1)), record=r.chance(1, w))
+                o.count("overlap/2 calls, cool-down ends inside")
+    # (C) three calls: sampled kinds, interleavings, starting counts and clock advances
+    for _ in range(o.scale(1500, 25000, 12000)):
+        n, cd = r.range(1, 3), r.range(1, 2)
+        kinds = [r.pick(OVERLAP_KINDS) for _ in range(3)]
+        inter = []
+        left = {11 + j: OVERLAP_STEPS[kd] for j, kd in enumerate(kinds)}
+        while left:
+            i = r.pick(sorted(left))
+            inter.append(i)
+            left[i] -= 1
+            if not left[i]:
+                del left[i]
+        for _ in range(r.intn(3)):
+            inter.insert(r.intn(len(inter) + 1), ["adv", r.pick([1, 999, cd * 1000 - 1, cd * 1000, cd * 1000 + 1])])
+        pre = r.intn(n + 1)
+        tail = r.pick([["conn"], ["hdr", "conn"], [["adv", cd * 1000 - 1], "clean", ["adv", 1], "clean", "conn"], []])
+        adv_before = r.pick([None, None, 1, cd * 1000 - 1, cd * 1000])
+        do_overlap_case(o, overlap_history(n, cd, pre, kinds, inter, tail, adv_before=adv_before),
+                        record=not o.search() and r.chance(1, 2))
+        o.count("overlap/3 calls sampled")
+
+
+# =============================================================================
 # suite "filter"
 # =============================================================================
 
@@ -1049,6 +1512,12 @@ def main():
     o.declare_suite("failsafe", req, "case_failsafe", "run_failsafe" + sfx)
     o.declare_suite("filter", req, "case_filter", "run_filter" + sfx)
     o.declare_suite("hook", req, "case_hook", "run_hook_case" + sfx)
+    osfx = ""
+    if os.environ.get("C19_MODEL") == "flag":
+        # manual cross-check only: the per-instance-flag variant of Overlap.v (seeded regression C19-5)
+        osfx = "_flag"
+        o.note("C19_MODEL=flag: suite overlap is compared with the per-instance-flag variant (Overlap.vstep)")
+    o.declare_suite("overlap", "From Verif Require Import C19.Model C19.Overlap.", "case_overlap", "run_overlap" + osfx)
     o.rule("failsafe: every sequence of the 5 call events (gateway ok / gateway error / other exception / "
            "filtered destination / 1 s tick) up to a length bound x (n, c) in {1..3}^2 driven through the hooks' "
            "`with fail_safe` pattern (all monitored, the shorter ones also compared with the model), the "
@@ -1056,9 +1525,15 @@ def main():
            "with sub-second instants; filter: 256 first octets x boundary second octets x 3 tails, names by "
            "resolution, IPv6 / malformed / unresolvable hosts, resolver answers changing under the cache, "
            "9 x 9 allow/block lists x header flavours; hook: the same event sequences through "
-           "RequestsHook with a scripted transport. distinct = distinct (inputs, observed outputs); "
+           "RequestsHook with a scripted transport; overlap: ALL interleavings of the method calls of two guarded "
+           "calls on one FailSafe x 21 unordered pairs of {clean, x-lunar-error, ConnectionError, other exception, "
+           "filtered, clean-then-failing-retry} x starting count {0, 1, max-1, max (cool-down 1 ms before its end / "
+           "just over)} x a following gateway error / probes at the cool-down edge, plus sampled interleavings of "
+           "three calls with clock advances (all monitored, 1 in 4 also compared with the model). "
+           "distinct = distinct (inputs, observed outputs); "
            "non-trivial = failsafe/hook: an admissible call was kept away from the gateway; "
-           "filter: the case has both routed and non-routed destinations")
+           "filter: the case has both routed and non-routed destinations; overlap: two calls were open at once, "
+           "a clean response arrived and state_ok answered False at some point")
     o.note("tree under check: " + REPO)
     try:
         import socket
@@ -1076,6 +1551,8 @@ def main():
             do_filter_case(o, case)
         elif suite == "hook":
             do_hook_case(o, case)
+        elif suite == "overlap" or "schedule" in case:
+            do_overlap_case(o, case)
         elif "events" in case:
             do_event_case(o, case["ctor"], case["t0"], case["events"])
         else:
@@ -1083,6 +1560,7 @@ def main():
         o.finish()
         return
     gen_failsafe(o)
+    gen_overlap(o)
     gen_filter(o)
     gen_hook(o)
     o.finish()
